@@ -585,6 +585,8 @@ func (p *parser) newSliceExpr(obj *ast.Node, start *ast.Node, end *ast.Node, ste
 func (p *parser) Lex(lval *yySymType) int {
 	var typ ItemType
 
+	verifLex(0, len(p.lex.input))
+
 	if p.injecting {
 		p.injecting = false
 		return int(p.inject)
